@@ -26,20 +26,33 @@ FailedOf(c, verdict, parts) ==
 
 (* the same request is validated again after the document has served a validation with every exclusion option on:    *)
 (* the answer is a function of the request, the document and the options of THIS call                                 *)
+(* history: every further validation (RequestCheck!View) is judged by the same contract on the case as that call sees it *)
+StepsOf(line) == IF "steps" \in DOMAIN line THEN line.steps ELSE <<>>
+HistFailed(c, steps) ==
+   IF Len(steps) # Len(c.hist) THEN {"history_realised"}
+   ELSE UNION {(IF StepWellFormed(c, CurAt(c, i), c.hist[i]) THEN {} ELSE {"history_wellformed"})
+               \cup (IF FailedOf(View(c, c.hist[i]), steps[i].verdict, steps[i].parts) # {}
+                     THEN {"answer_follows_the_route_and_document_of_this_call"} ELSE {}) : i \in DOMAIN c.hist}
+
 Failed(line) ==
    LET c == Norm(line.c) IN
    IF line.doc # "ok" THEN {"document_rejected"}
+   ELSE IF NoCallback(c) /\ c.accepts # {} THEN {"case_wellformed"}      \* without a callback no scheme is accepted
    ELSE FailedOf(c, line.verdict, line.parts)
+        \cup (IF line.verdict \in {"crash", "hang"} THEN {} ELSE HistFailed(c, StepsOf(line)))
         \cup (IF "verdict3" \in DOMAIN line /\ FailedOf(c, line.verdict3, line.parts3) # {} THEN {"same_answer_after_a_validation_with_other_options"} ELSE {})
         \cup (IF "docSame" \in DOMAIN line /\ ~line.docSame THEN {"document_unchanged"} ELSE {})
 
 LineOK(line) ==
    LET bad == Failed(line) IN
    /\ bad = {} \/ CSVWrite("%1$s", <<ToJson([case |-> line.case, c |-> line.c, failed |-> bad, verdict |-> line.verdict,
-                                              parts |-> line.parts, want |-> FailingParts(Norm(line.c)), class |-> Class(line, bad)])>>,
+                                              parts |-> line.parts, want |-> FailingParts(Norm(line.c)), steps |-> StepsOf(line), class |-> Class(line, bad)])>>,
                            "violations.ndjson")
    /\ (line.doc # "ok"
-       \/ line.calls = ExpectedCalls(EffSec(line.c), {line.c.accepts[i] : i \in DOMAIN line.c.accepts})
+       \/ (/\ line.calls = (IF NoCallback(line.c) THEN <<>> ELSE ExpectedCalls(EffSec(line.c), {line.c.accepts[i] : i \in DOMAIN line.c.accepts}))
+           /\ Len(StepsOf(line)) = Len(line.c.hist)
+           /\ \A i \in DOMAIN line.c.hist :
+                 StepsOf(line)[i].calls = ExpectedCalls(EffSec(View(line.c, line.c.hist[i])), {line.c.accepts[j] : j \in DOMAIN line.c.accepts}))
        \/ CSVWrite("%1$s", <<ToJson([case |-> line.case, calls |-> line.calls])>>, "fidelity.ndjson"))
 Judge == l > 0 => LineOK(Trace[l])
 AllConsumed == TLCGet("stats").diameter = Len(Trace) + 1
